@@ -104,7 +104,8 @@ def ops(draw, records, delimiter):
     kind = draw(st.sampled_from(["add_record", "add_record", "add_prefix"]))
     if kind == "add_prefix":
         rec["pattern"] = None  # add_prefix has no pattern argument
-    return {"op": kind, "record": rec, "case_sensitive": draw(st.booleans()), "merge": draw(st.sampled_from([True, True, False]))}
+    return {"op": kind, "record": rec, "case_sensitive": draw(st.booleans()), "merge": draw(st.sampled_from([True, True, False])),
+            "collection": draw(st.sampled_from(["list", "tuple", "set", "frozenset", "none-if-empty"]))}
 
 
 def _probes(records, d):
@@ -216,8 +217,9 @@ class History:
             if op["op"] == "add_record":
                 c.add_record(mk_record(rec), case_sensitive=cs, merge=merge)
             else:
-                c.add_prefix(rec["prefix"], rec["uri_prefix"], prefix_synonyms=list(rec["prefix_synonyms"]),
-                             uri_prefix_synonyms=list(rec["uri_prefix_synonyms"]), case_sensitive=cs, merge=merge)
+                coll = {"list": list, "tuple": tuple, "set": set, "frozenset": frozenset, "none-if-empty": lambda x: (list(x) or None)}[op.get("collection", "list")]
+                c.add_prefix(rec["prefix"], rec["uri_prefix"], prefix_synonyms=coll(rec["prefix_synonyms"]),
+                             uri_prefix_synonyms=coll(rec["uri_prefix_synonyms"]), case_sensitive=cs, merge=merge)
             raised = None
         except ValueError as e:
             raised = e
